@@ -101,6 +101,8 @@ type Container struct {
 	Obj any
 	// Start is the cursor position a fresh iterator starts at (-1 unless IteratorAt is used).
 	Start func() int
+	// Mutate applies further insertions and removals (same meaning as Spec.Adds / Spec.Rems).
+	Mutate func(adds, rems []int)
 }
 
 func mkCursor(it any) Cursor {
@@ -153,9 +155,9 @@ func Build(s Spec) Container {
 		Size() int
 		Values() []int
 	}
-	buildList := func(l list) {
-		l.Add(s.Adds...)
-		for _, r := range s.Rems {
+	buildList := func(l list, adds, rems []int) {
+		l.Add(adds...)
+		for _, r := range rems {
 			if l.Size() > 0 {
 				l.Remove(mod(r, l.Size()))
 			}
@@ -165,14 +167,14 @@ func Build(s Spec) Container {
 		push func(int)
 		pop  func() (int, bool)
 	}
-	buildPop := func(p popper) {
-		for _, a := range s.Adds {
+	buildPop := func(p popper, adds, rems []int) {
+		for _, a := range adds {
 			p.push(a)
 		}
-		for range s.Rems {
+		for range rems {
 			p.pop()
 		}
-		for _, r := range s.Rems {
+		for _, r := range rems {
 			p.push(r)
 		}
 	}
@@ -182,95 +184,93 @@ func Build(s Spec) Container {
 		Keys() []int
 		Get(int) (int, bool)
 	}
-	buildKV := func(m kv) {
-		for _, a := range s.Adds {
+	buildKV := func(m kv, adds, rems []int) {
+		for _, a := range adds {
 			m.Put(a, val(a))
 		}
-		for _, r := range s.Rems {
+		for _, r := range rems {
 			m.Remove(r)
 		}
 	}
 	switch s.Kind {
 	case "arraylist":
 		l := arraylist.New[int]()
-		buildList(l)
+		c.Mutate = func(a, r []int) { buildList(l, a, r) }
 		c.Obj, c.Seq = l, valueSeq(l.Values)
 		c.Iterator = func() Cursor { return mkCursor(l.Iterator()) }
 	case "singlylinkedlist":
 		l := singlylinkedlist.New[int]()
-		buildList(l)
+		c.Mutate = func(a, r []int) { buildList(l, a, r) }
 		c.Obj, c.Seq = l, valueSeq(l.Values)
 		c.Iterator = func() Cursor { return mkCursor(l.Iterator()) }
 	case "doublylinkedlist":
 		l := doublylinkedlist.New[int]()
-		buildList(l)
+		c.Mutate = func(a, r []int) { buildList(l, a, r) }
 		c.Obj, c.Seq = l, valueSeq(l.Values)
 		c.Iterator = func() Cursor { it := l.Iterator(); return mkCursor(&it) }
 	case "treeset":
 		t := treeset.NewWith[int](cmp)
-		t.Add(s.Adds...)
-		t.Remove(s.Rems...)
+		c.Mutate = func(a, r []int) { t.Add(a...); t.Remove(r...) }
 		c.Obj, c.Seq = t, valueSeq(t.Values)
 		c.Iterator = func() Cursor { it := t.Iterator(); return mkCursor(&it) }
 	case "linkedhashset":
 		t := linkedhashset.New[int]()
-		t.Add(s.Adds...)
-		t.Remove(s.Rems...)
+		c.Mutate = func(a, r []int) { t.Add(a...); t.Remove(r...) }
 		c.Obj, c.Seq = t, valueSeq(t.Values)
 		c.Iterator = func() Cursor { it := t.Iterator(); return mkCursor(&it) }
 	case "arraystack":
 		t := arraystack.New[int]()
-		buildPop(popper{t.Push, t.Pop})
+		c.Mutate = func(a, r []int) { buildPop(popper{t.Push, t.Pop}, a, r) }
 		c.Obj, c.Seq = t, valueSeq(t.Values)
 		c.Iterator = func() Cursor { return mkCursor(t.Iterator()) }
 	case "linkedliststack":
 		t := linkedliststack.New[int]()
-		buildPop(popper{t.Push, t.Pop})
+		c.Mutate = func(a, r []int) { buildPop(popper{t.Push, t.Pop}, a, r) }
 		c.Obj, c.Seq = t, valueSeq(t.Values)
 		c.Iterator = func() Cursor { return mkCursor(t.Iterator()) }
 	case "arrayqueue":
 		t := arrayqueue.New[int]()
-		buildPop(popper{t.Enqueue, t.Dequeue})
+		c.Mutate = func(a, r []int) { buildPop(popper{t.Enqueue, t.Dequeue}, a, r) }
 		c.Obj, c.Seq = t, valueSeq(t.Values)
 		c.Iterator = func() Cursor { return mkCursor(t.Iterator()) }
 	case "linkedlistqueue":
 		t := linkedlistqueue.New[int]()
-		buildPop(popper{t.Enqueue, t.Dequeue})
+		c.Mutate = func(a, r []int) { buildPop(popper{t.Enqueue, t.Dequeue}, a, r) }
 		c.Obj, c.Seq = t, valueSeq(t.Values)
 		c.Iterator = func() Cursor { return mkCursor(t.Iterator()) }
 	case "circularbuffer":
 		t := circularbuffer.New[int](s.Cap)
-		buildPop(popper{t.Enqueue, t.Dequeue})
+		c.Mutate = func(a, r []int) { buildPop(popper{t.Enqueue, t.Dequeue}, a, r) }
 		c.Obj, c.Seq = t, valueSeq(t.Values)
 		c.Iterator = func() Cursor { return mkCursor(t.Iterator()) }
 	case "priorityqueue":
 		t := priorityqueue.NewWith[int](cmp)
-		buildPop(popper{t.Enqueue, t.Dequeue})
+		c.Mutate = func(a, r []int) { buildPop(popper{t.Enqueue, t.Dequeue}, a, r) }
 		c.Obj, c.Seq = t, valueSeq(t.Values)
 		c.Iterator = func() Cursor { return mkCursor(t.Iterator()) }
 	case "binaryheap":
 		t := binaryheap.NewWith[int](cmp)
-		buildPop(popper{func(v int) { t.Push(v) }, t.Pop})
+		c.Mutate = func(a, r []int) { buildPop(popper{func(v int) { t.Push(v) }, t.Pop}, a, r) }
 		c.Obj, c.Seq = t, valueSeq(t.Values)
 		c.Iterator = func() Cursor { return mkCursor(t.Iterator()) }
 	case "treemap":
 		t := treemap.NewWith[int, int](cmp)
-		buildKV(t)
+		c.Mutate = func(a, r []int) { buildKV(t, a, r) }
 		c.Obj, c.Seq = t, keySeq(t.Keys, t.Get)
 		c.Iterator = func() Cursor { return mkCursor(t.Iterator()) }
 	case "linkedhashmap":
 		t := linkedhashmap.New[int, int]()
-		buildKV(t)
+		c.Mutate = func(a, r []int) { buildKV(t, a, r) }
 		c.Obj, c.Seq = t, keySeq(t.Keys, t.Get)
 		c.Iterator = func() Cursor { return mkCursor(t.Iterator()) }
 	case "treebidimap":
 		t := treebidimap.NewWith[int, int](cmp, dom.Cmp(dom.Nat))
-		buildKV(t)
+		c.Mutate = func(a, r []int) { buildKV(t, a, r) }
 		c.Obj, c.Seq = t, keySeq(t.Keys, t.Get)
 		c.Iterator = func() Cursor { return mkCursor(t.Iterator()) }
 	case "redblacktree":
 		t := redblacktree.NewWith[int, int](cmp)
-		buildKV(t)
+		c.Mutate = func(a, r []int) { buildKV(t, a, r) }
 		c.Obj, c.Seq = t, keySeq(t.Keys, t.Get)
 		c.Iterator = func() Cursor {
 			if s.At != nil {
@@ -292,12 +292,12 @@ func Build(s Spec) Container {
 		}
 	case "avltree":
 		t := avltree.NewWith[int, int](cmp)
-		buildKV(t)
+		c.Mutate = func(a, r []int) { buildKV(t, a, r) }
 		c.Obj, c.Seq = t, keySeq(t.Keys, t.Get)
 		c.Iterator = func() Cursor { return mkCursor(t.Iterator()) }
 	case "btree":
 		t := btree.NewWith[int, int](s.Order, cmp)
-		buildKV(t)
+		c.Mutate = func(a, r []int) { buildKV(t, a, r) }
 		c.Obj, c.Seq = t, keySeq(t.Keys, t.Get)
 		c.Iterator = func() Cursor { return mkCursor(t.Iterator()) }
 	default:
@@ -306,5 +306,6 @@ func Build(s Spec) Container {
 	if c.Start == nil {
 		c.Start = func() int { return -1 }
 	}
+	c.Mutate(s.Adds, s.Rems)
 	return c
 }
